@@ -131,3 +131,51 @@ class DefUse(object):
               return True
       return False
     return go(expr, depth)
+
+  # ---- must-aliasing through simple local assignments
+  def values_of(self, name):
+    """Value expressions of the plain `name = value` assignments binding `name`; None when some
+    binding is not of that form (loop target, unpacking, augmented assignment, parameter)."""
+    out = []
+    params = {a.arg for a in ast.walk(self.fn.fi.node.args) if isinstance(a, ast.arg)}
+    if name in params and not self.defs.get(name):
+      return None
+    for nid in self.defs.get(name, ()):
+      s = self.cfg.nodes[nid].stmt
+      if isinstance(s, ast.Assign) and len(s.targets) == 1 and isinstance(s.targets[0], ast.Name) \
+          and s.targets[0].id == name:
+        out.append(s.value)
+      elif isinstance(s, ast.AnnAssign) and isinstance(s.target, ast.Name) and s.target.id == name \
+          and s.value is not None:
+        out.append(s.value)
+      else:
+        return None
+    if name in params:
+      return None
+    return out or None
+
+  def denotes(self, expr, pred, depth=5):
+    """True when `expr` satisfies pred, or is a local name every binding of which is a plain
+    assignment of an expression that (recursively) denotes pred. Spelling-independent test for
+    "this operand is that value", whether written inline or through named locals."""
+    if pred(expr):
+      return True
+    if depth <= 0 or not isinstance(expr, ast.Name):
+      return False
+    vals = self.values_of(expr.id)
+    return bool(vals) and all(self.denotes(v, pred, depth - 1) for v in vals)
+
+  def inline(self, expr, depth=5, stop=()):
+    """Copy of `expr` with every local name that has exactly one plain assignment replaced by the
+    assigned expression (recursively; names in `stop` are kept). For comparing normalised text of an operand."""
+    du = self
+    class T(ast.NodeTransformer):
+      def visit_Name(self, n):
+        if isinstance(n.ctx, ast.Load) and depth > 0 and n.id not in stop:
+          vals = du.values_of(n.id)
+          if vals and len(vals) == 1:
+            return du.inline(vals[0], depth - 1, stop)
+        return n
+    import copy
+    return T().visit(copy.deepcopy(expr))
+
